@@ -159,6 +159,7 @@ type Conn struct {
 	closed     bool // closed locally
 	reset      bool
 	peerClosed bool // FIN from peer delivered
+	wclosed    bool // write side shut down (CloseWrite): FIN queued, reads still possible
 	rdl, wdl   time.Time
 	rtimer     *time.Timer
 	Tag        string // free label for the harness (e.g. "hostile")
@@ -242,7 +243,7 @@ func (c *Conn) Write(p []byte) (int, error) {
 	if c.reset {
 		return 0, ErrReset
 	}
-	if c.peerClosed {
+	if c.peerClosed || c.wclosed {
 		return 0, ErrPipe
 	}
 	if len(p) == 0 {
@@ -295,13 +296,38 @@ func (c *Conn) Close() error {
 	if c.rtimer != nil {
 		c.rtimer.Stop()
 	}
-	if !c.reset {
+	if !c.reset && !c.wclosed {
 		c.out = append(c.out, segment{fin: true})
 	}
 	c.rbuf = nil
 	c.rcond.Broadcast()
 	return nil
 }
+
+// CloseWrite shuts down the write side only (TCP shutdown(SHUT_WR)): the peer
+// reads EOF after the data already written, this endpoint can still read what
+// the peer sends until the peer closes. Used by hostile-peer tasks that must
+// observe every byte the node sends back.
+func (c *Conn) CloseWrite() error {
+	c.n.mu.Lock()
+	defer c.n.mu.Unlock()
+	if c.closed {
+		return ErrClosed
+	}
+	if c.reset {
+		return ErrReset
+	}
+	if c.wclosed {
+		return nil
+	}
+	c.wclosed = true
+	c.out = append(c.out, segment{fin: true})
+	return nil
+}
+
+// Sent and Rcvd report the bytes written by / delivered to this endpoint.
+func (c *Conn) Sent() uint64 { c.n.mu.Lock(); defer c.n.mu.Unlock(); return c.sent }
+func (c *Conn) Rcvd() uint64 { c.n.mu.Lock(); defer c.n.mu.Unlock(); return c.rcvd }
 
 func (c *Conn) SetDeadline(t time.Time) error {
 	c.SetReadDeadline(t)
